@@ -14,9 +14,14 @@ CHECKS = {
         text="Kernel-checked theorem GlobEq.C17_agrees: the model scanner (list-recursive mirror of util.PattenMatch) equals the token-grammar "
              "semantics for every pattern and subject; C17_broken: unparsable patterns match nothing; totality by Lean's termination checker. "
              "The model is tied to the Go function by running both on every (pattern, subject) up to a length bound over an alphabet with every "
-             "metacharacter, and on random long/binary pairs.",
+             "metacharacter, and on random long/binary pairs. KEYS under concurrency (Props/C05Walk.lean on the micro-step model Conc/MapWalk.lean of "
+             "concurrentmap.go — shards with RW locks, writers running arbitrary Set/SetIfNotExist/Delete programs, Keys() walking shard by shard): "
+             "walk_sees_stable_keys (a key present from before the walk until after it is listed exactly once, however often it is overwritten), "
+             "walk_only_lists_keys_present_sometime, walk_no_duplicates; negative theorems with concrete runs: overwrite as delete-then-insert "
+             "(overwrite_two_step_loses_key) and a walk that stops after count keys (walkSeesStable_false_for_stopAtCap) both lose a stable key.",
         note="Trusted: Lean kernel (axioms propext, Classical.choice, Quot.sound), the Go harness and driver, Go string semantics as mirrored by "
-             "list recursion. KEYS' keyspace iteration is covered under C01's exec engine.",
+             "list recursion. KEYS' keyspace iteration is covered under C01's exec engine; the shard-walk model is tied to the code by reading and by "
+             "the stress scenario keysstable, not differentially.",
     ),
 }
 
@@ -105,7 +110,12 @@ CHECKS["C05"] = dict(
          "instantiates Cc.atomicity (now generic in key and value type) with the block of every command (cmdBlock_wf, cmdBlock_adequate) and proves "
          "table_atomicity_partial: any number of clients running any lists of commands other than KEYS end, under every interleaving, with the keyspace "
          "and replies of the sequential run in commit order. Tie: on every traced command the set of stripes locked (and the write mode) must equal the "
-         "stripes of Exec.lockPlan's keys (Driver.checkFootprint; the harness ships the stripe of every argument), with its own negative control.",
+         "stripes of Exec.lockPlan's keys (Driver.checkFootprint; the harness ships the stripe of every argument), with its own negative control. "
+         "What the atomicity theorems leave out is stated for what it is: KEYS is not atomic, but its walk over the sharded map lists every key "
+         "present throughout exactly once and only keys present at some moment (Props/C05Walk.lean, with negative theorems for delete-then-insert "
+         "overwrite and for an early stop after count keys); DEL/EXISTS/MGET are per-key loops: each key's sub-operation is atomic at its own commit "
+         "point and the reply is the aggregate (Props/C13PerKey.lean perkey_loop_linearizable_per_key), not atomic across keys "
+         "(perkey_not_atomic_across_keys: MGET a b against MSET answers [nil, v]).",
     note="Partial: the Go scheduler and memory model are not modelled; concurrent runs are exploration. The table-wide atomicity theorem models one block per "
          "command (CheckTTL's own blocks folded in, KEYS excluded, DEL/EXISTS/MGET/BLPOP/BRPOP as one block although Go takes one per key). "
          "Trusted: Lean kernel, harness, hook H2, sync.RWMutex semantics.",
@@ -126,7 +136,9 @@ CHECKS["C13"] = dict(
          "ascending and duplicate-free for EVERY stripe function; table_deadlock_free: any number of clients running any command lists can always take "
          "a step from every reachable lock state (DL.progress + DL.step_ok). Tie: the lock scopes of every traced command, in order, must be a run of "
          "lockProg under the observed stripe table (Driver.checkLockOrder; the matcher is proved exact, accepts_iff_mem_runs), with a negative control "
-         "that removes one scope while leaving the locked set unchanged.",
+         "that removes one scope while leaving the locked set unchanged. DEL/EXISTS/MGET as the per-key loops they are (Props/C13PerKey.lean): "
+         "perkey_loop_linearizable_per_key (one single-stripe block per key; every sub-operation atomic at its own commit point; reply = aggregate), "
+         "split_del/_exists/_mget (uninterrupted, the per-key program is the command), perkey_not_atomic_across_keys.",
     note="Partial: scheduler/runtime not modelled; the concurrent runs are exploration; DEL/EXISTS/MGET are one block per key in Go (not atomic across keys). "
          "Trusted: Lean kernel, harness, hook H2.",
 )
